@@ -188,6 +188,26 @@ def twice_case(rnd, how):
     return t, main, flat
 
 
+def shadow_case(rnd, how):
+    """A directory that has the name of the included file stands where the search looks first; the file is further down the search."""
+    t = Tree(rnd)
+    t.places = ["dir-shadow-" + how]
+    main = VR + "/proj/main.asm"
+    snip = [instr("inc", R(20)), data(1, E(0x31), E(0x32))]
+    if how == "caller":
+        # caller-supplied directory ext holds a directory cfg.inc; the file is in an .includepath directory of the main file
+        t.files[VR + "/ext/cfg.inc/keep.txt"] = [line("blank")]
+        t.files[VR + "/proj/ipm/cfg.inc"] = snip
+        t.files[main] = [line("includepath", p="ipm", abs=False), instr("nop"), line("include", p="cfg.inc", abs=False), instr("ret")]
+    else:
+        # next to the including file there is a directory of that name; the file is in the caller-supplied directory
+        t.files[VR + "/proj/cfg.inc/keep.txt"] = [line("blank")]
+        t.files[VR + "/ext/cfg.inc"] = snip
+        t.files[main] = [instr("nop"), line("include", p="cfg.inc", abs=False), instr("ret")]
+    flat = [instr("nop")] + copy.deepcopy(snip) + [instr("ret")]
+    return t, main, flat
+
+
 def render_tree(t, root):
     """Renders every file (assigning line numbers) with the virtual root replaced by the real one."""
     texts = {}
@@ -238,6 +258,9 @@ def check(prop, tier, seed):
             cases.append((t, main, flat if flat is not None else [instr("nop")], flat is None))
         for how in ("flat", "nested"):
             t, main, flat = twice_case(rnd, how)
+            cases.append((t, main, flat, False))
+        for how in ("caller", "beside"):
+            t, main, flat = shadow_case(rnd, how)
             cases.append((t, main, flat, False))
         for boundary in (8192, 16384, 4096, 65536):
             for shift in (0, 1, 2):
